@@ -42,6 +42,7 @@ TRUSTED_EXTRA = ["hand-written model lean/NixModel/Pure/Tree.lean tied to util/f
 HKINDS = ["group", "data_array", "tag", "multi_tag"]
 HCONT = {"group": "groups", "data_array": "data_arrays", "tag": "tags", "multi_tag": "multi_tags"}
 NAMES = ["a", "b", "c", "x"]
+WIDE_NAMES = NAMES + ["d", "e", "f", "g", "h", "i", "j", "k"]   # some histories: wide trees
 TYPES = ["t1", "t2"]
 POSNAME = "__pos__"
 QUERY_OPS = ("find", "parent", "parent_source", "parent_block", "referring")
@@ -117,6 +118,7 @@ class Impl:
         self.cached = {}     # key -> handle returned by Section.create_section / File.create_section
         self.id2key = {}
         self.next = 0
+        self.names = NAMES
 
     def close(self):
         try:
@@ -351,6 +353,7 @@ def gen_op(impl, rng, phase):
 
 def _gen_op(impl, rng, phase):
     reg = impl.reg
+    NAMES = impl.names
     by = {"section": [], "source": [], "block": [], "holder": []}
     for k, e in reg.items():
         by[e["kind"]].append(k)
@@ -422,6 +425,8 @@ def _gen_op(impl, rng, phase):
         else:
             root, md = some("source"), maxdepth("source")
         limit = None if rng.random() < 0.2 else rng.randint(0, md + 1)
+        if rng.random() < 0.03:
+            limit = rng.choice([10 ** 6, 2 ** 63 - 1, 2 ** 63])
         return ["find", root, _rand_filter(rng), limit]
     if q < 0.56:
         k = some("section")
@@ -468,6 +473,8 @@ def gen_history(ctx, path, nbuild, nmixed, on_state=None):
     """build a history while running it on the implementation; returns (lines, impl outputs)"""
     rng = ctx.rng
     impl = Impl(path)
+    if rng.random() < 0.3:
+        impl.names = WIDE_NAMES
     lines, outs = [], []
     try:
         for i in range(nbuild + nmixed):
@@ -618,7 +625,8 @@ def correspondence(ctx):
     return {"evaluations": evaluations, "distinct_nontrivial": len(seen),
             "rule": "histories of create/link/unlink/set/del metadata/delete/reopen operations interleaved with "
                     "find / parent / parent_source / parent_block / referring queries, generated adaptively against "
-                    "the live file (names from a pool of 4 so that they repeat across subtrees and levels, limits "
+                    "the live file (names from a pool of 4 so that they repeat across subtrees and levels, 30% of the histories "
+                    "with 12 names for wide trees, limits "
                     "0..depth+1 and None, 7 filter shapes, queries through cached, re-fetched and link handles, ~4% "
                     "dead or wrong-kind keys); every line is compared model vs nixio. evaluations = protocol lines; "
                     "non-trivial = error outcome, non-empty find with a limit or a filter, non-None parent, non-empty "
@@ -979,6 +987,8 @@ def oracle(ctx, broken, hints):
         # build without queries, checking intermediate states now and then
         rng = ctx.rng
         impl = Impl(path)
+        if rng.random() < 0.3:
+            impl.names = WIDE_NAMES
         try:
             for j in range(nb + nm):
                 line = gen_op(impl, rng, "build" if j < nb else "mixed")
